@@ -43,12 +43,16 @@ func transformCSS(src string, minifySyntax, minifyWS bool, supported map[string]
 
 func runC12(seed uint64, n int, tier string, outDir string) []*Stats {
 	r := NewRng(seed)
-	cf := NewCoqFile("From V Require Import Common.Base C12.Text C12.Hex C12.ColorSpec gen.ColorTablesGen C12.Cascade C12.Harness.")
+	cf := NewCoqFile("From V Require Import Common.Base C12.Text C12.Hex C12.ColorSpec gen.ColorTablesGen C12.Cascade C12.NumberCss C12.Mangle C12.ImportOrder C12.Harness.")
 	st := NewStats("c12", seed)
 
 	glueCorpus(r, st)
 	hexCases(r, n, cf, st)
+	numberCases(r, n, cf, st)
+	redundantCases(r, n, cf, st)
+	mangleCases(r, n/2, cf, st)
 	glueTransform(r, n/2, st, cf)
+	glueBundle(r, n/3, st)
 
 	st.Finish("seeded generator (splitmix64 from VERIF_SEED); distinct_nontrivial = distinct (family,input) pairs that exercise a non-identity path")
 	if err := os.WriteFile(filepath.Join(outDir, "c12_cases.v"), []byte(cf.String()), 0o644); err != nil {
